@@ -1290,9 +1290,31 @@ func (ck *Check) filteredLister(rule string, fn *ssa.Function) {
 		if !ok {
 			continue
 		}
+		sharedErr := false
 		if et := ctx.Term(r.Results[1]); !(et.Kind == "const" && et.Name == "nil") {
-			continue
+			// one shared `return list, err` with err the backing List's own error: on the success
+			// path it is nil, on the other the loop did not run
+			if !(isExtractOf(et, 1, func(t *Term) bool { return t.Kind == "invoke" && t.Name == "List" })) {
+				continue
+			}
+			sharedErr = true
+			// the collecting loop runs exactly when that error is nil
+			errNil := cmpFormula(token.EQL, et, &Term{Kind: "const", Name: "nil"})
+			okLoop := false
+			for _, l := range loopsOf(fn) {
+				if l.Over == nil {
+					continue
+				}
+				if eq, _, _ := Equivalent(ctx.BlockPC(l.Header), errNil); eq {
+					okLoop = true
+				}
+			}
+			if !okLoop {
+				why = "with one shared return, the collecting loop does not run exactly when the backing List succeeded"
+				continue
+			}
 		}
+		_ = sharedErr
 		over, filter, w := ck.filterCollect(fn, ctx, r.Results[0], 0)
 		if over == nil {
 			if w != "" {
@@ -1574,12 +1596,34 @@ func (ck *Check) nodeListImmutability(rule string) {
 					return "scaleOpts." + fieldOfAddr(fa).Name()
 				}
 			}
+			// a local spilled because a closure captures it (`sort.Slice(nodes, func… nodes[i] …)`)
+			if al, ok := x.X.(*ssa.Alloc); ok && x.Op == token.MUL && isNodeList(x.Type()) {
+				for _, ref := range *al.Referrers() {
+					if st, ok := ref.(*ssa.Store); ok && st.Addr == ssa.Value(al) {
+						if r := sharedRoot(st.Val, seen); r != "" {
+							return r
+						}
+					}
+				}
+			}
 		case *ssa.Extract:
 			if c, ok := x.Tuple.(*ssa.Call); ok && isNodeList(x.Type()) {
 				if c.Common().IsInvoke() || (c.Common().StaticCallee() != nil && ck.P.inRepo(c.Common().StaticCallee())) {
 					return "result of " + calleeName(c)
 				}
 			}
+		case *ssa.Call:
+			// append(shared, more…) writes into — and may return — shared's backing array when it has
+			// room (the classifier makes its lists with the capacity of the whole node list)
+			if ap, ok := isBuiltinCall(x, "append"); ok && len(ap.Common().Args) > 0 {
+				return sharedRoot(ap.Common().Args[0], seen)
+			}
+		case *ssa.MakeInterface:
+			return sharedRoot(x.X, seen)
+		case *ssa.ChangeType:
+			return sharedRoot(x.X, seen)
+		case *ssa.Convert:
+			return sharedRoot(x.X, seen)
 		}
 		return ""
 	}
@@ -1776,6 +1820,40 @@ func (ck *Check) nodeListImmutability(rule string) {
 						}
 					}
 				case *ssa.Call:
+					// a library sort (or reversal) reorders its argument in place
+					if f := x.Common().StaticCallee(); f != nil && len(x.Common().Args) > 0 {
+						pkg, name := pkgPathOfFn(f), f.Name()
+						if o := f.Origin(); o != nil {
+							name = o.Name()
+						}
+						inPlace := (pkg == "sort" && (name == "Slice" || name == "SliceStable" || name == "Sort" || name == "Stable")) ||
+							(pkg == "slices" && (strings.HasPrefix(name, "Sort") || name == "Reverse"))
+						if inPlace {
+							arg := x.Common().Args[0]
+							under := arg
+							for {
+								switch y := under.(type) {
+								case *ssa.MakeInterface:
+									under = y.X
+									continue
+								case *ssa.ChangeType:
+									under = y.X
+									continue
+								case *ssa.Convert:
+									under = y.X
+									continue
+								}
+								break
+							}
+							if isNodeList(under.Type()) {
+								n++
+								if r := sharedRoot(under, map[ssa.Value]bool{}); r != "" {
+									bad++
+									ck.fail(rule, ck.P.siteKey(x), ck.P.instrPos(x), funcID(fn), "node / pod lists received from the scan are not modified in place", name+" of "+r, "a list shared with later steps of the scan is reordered: the candidates are no longer the classifier's")
+								}
+							}
+						}
+					}
 					if ap, ok := isBuiltinCall(x, "append"); ok && isNodeList(ap.Type()) {
 						n++
 						base := ap.Common().Args[0]
